@@ -106,9 +106,11 @@ def generate(rng, tier):
         for n in sorted({max(1, (2 * cap - 35) // 6 - j) for j in (0, 1, 2, 5, 9)} | {max(1, cap // 6), max(1, cap // 4)}):
             for f in (range(0, cap + 8, 8) if not quick else rng.sample(range(0, cap + 8, 8), min(10, cap // 8))):
                 for ctl in (1, 0x1F):
-                    doc = b'["' + b"x" * f + b'","' + sj(bytes([ctl]) * n) + b'"]'
-                    cases.append({"lines": [f"ser {cap} {rng.choice([0, 0, 1])} {_hex(doc)}"], "cls": "expanding-string-in-part-full-buffer",
-                                  "nontrivial": True, "via": "c06"})
+                    # filler = one string (its own reservation grows the buffer generously) / many small numbers (the buffer fills
+                    # up without growing: the string's request then meets a part-full buffer of the initial capacity)
+                    for doc in (b'["' + b"x" * f + b'","' + sj(bytes([ctl]) * n) + b'"]', b"[" + b"1," * (f // 2) + b'"' + sj(bytes([ctl]) * n) + b'"]'):
+                        cases.append({"lines": [f"ser {cap} {rng.choice([0, 0, 1])} {_hex(doc)}"], "cls": "expanding-string-in-part-full-buffer",
+                                      "nontrivial": True, "via": "c06"})
     return cases
 
 
